@@ -152,8 +152,7 @@ def C04(ctx):
     wps.rule_wps_writers(ctx, m, affinity=False, tier=ctx.tier)
     wps.rule_pyx_direct_matrix(ctx, m)
     wps.rule_wps_epilogue(ctx, m)
-    if ctx.tier == 'thorough':
-        wps.rule_wps_readers(ctx, m, affinity=False)
+    wps.rule_wps_readers(ctx, m, affinity=False)
     ctx.floor('R-REC', 6, 'python matrix facts')
 
 
@@ -167,6 +166,9 @@ def C05(ctx):
     from .rules import wps
     wps.rule_best_path_py(ctx, m)
     wps.rule_best_path_c(ctx, m, tier=ctx.tier)
+    wps.rule_best_path_moves(ctx, m)
+    with ctx.scoped(has('dtw_wps_loc')):
+        wps.rule_wps_readers(ctx, m)
     with ctx.scoped(has('warping_path', 'best_path')):
         sig.rule_pyx_to_c(ctx, m)
         sig.rule_c_to_c(ctx, m)
@@ -347,6 +349,9 @@ def C18(ctx):
         cshape.rule_scan_init(ctx, m)
     misc.rule_identity(ctx, m, ['dtaidistance.subsequence.localconcurrences'])
     wps.rule_dual(ctx, m)
+    wps.rule_wps_readers(ctx, m, affinity=True)
+    with ctx.scoped(has('dtw_best_path_affinity')):
+        wps.rule_best_path_moves(ctx, m)
 
 
 def C19(ctx):
